@@ -9,12 +9,27 @@ H2(t, u, b, tag) == [heap |-> [a |-> Fresh(t), b |-> Fresh(u)], builds |-> [a |-
 MCInitHeaps ==
   {H1(T23, "dense", "T23"), H1(T23, "csr_unsorted", "T23u"), H1(T32, "csc", "T32"),
    H1(T33, "csr_zeros", "T33z"), H1(T22, "coo", "T22"),
-   H2(T23, T23p, "dense", "T23+p"), H2(T33, T33p, "csr_unsorted", "T33+p")}
+   H2(T23, T23p, "dense", "T23+p"), H2(T33, T33p, "csr_unsorted", "T33+p"),
+   H2(T23, T23same, "csc", "T23+same"), H2(T33, T33halfsame, "dense", "T33+halfsame")}
+
+H2b(t, u, b1, b2, tag) == [heap |-> [a |-> Fresh(t), b |-> Fresh(u)], builds |-> [a |-> b1, b |-> b2], tag |-> tag]
+\* pairs for equality: equal content through different constructions, and single differences
+EqHeaps ==
+  {H2b(T23, T23, "csr_zeros", "dense", "eq:zeros-dense"), H2b(T23, T23, "dense", "csr_zeros", "eq:dense-zeros"),
+   H2b(T33, T33, "csr_unsorted", "csc", "eq:unsorted-csc"), H2b(T32, T32, "coo", "lil", "eq:coo-lil"),
+   H2b(T33, T33, "csr_zeros", "csr_unsorted", "eq:zeros-unsorted"),
+   H2b(T23, T23val, "csr_zeros", "dense", "ne:value"), H2b(T23, T23id, "dense", "csr", "ne:id"),
+   H2b(T23, T23ord, "csr_unsorted", "dense", "ne:order"), H2b(T23, T23md, "dense", "csc", "ne:metadata"),
+   H2b(T23, T23type, "dense", "dense", "ne:type"), H2b(T23, T23nomd, "csr_zeros", "dense", "ne:nomd"),
+   H2b(T23, T23zero, "csr_zeros", "csr_zeros", "ne:zero-vs-value")}
+
+HeapSets == [std |-> MCInitHeaps, eq |-> EqHeaps, all |-> MCInitHeaps \cup EqHeaps]
+MCHeaps == HeapSets[IOEnv.GEN_HEAPS]
 
 PhaseSpec == JsonDeserialize(IOEnv.GEN_PHASES)
 MCPhases == [i \in 1..Len(PhaseSpec) |->
                [calls |-> SeqSet(PhaseSpec[i].calls), full |-> PhaseSpec[i].full, res |-> PhaseSpec[i].res,
-                pick |-> PhaseSpec[i].pick, salt |-> PhaseSpec[i].salt]]
+                pick |-> PhaseSpec[i].pick, salt |-> PhaseSpec[i].salt, recv |-> PhaseSpec[i].recv]]
 MCNatRank == [x \in {"o1", "o2", "o3", "o4", "s1", "s2", "s3", "s4", "n1", "n2", "n3", "n4", "n5", "n6", "zz"} |->
                 CASE x = "o1" -> 1 [] x = "o2" -> 2 [] x = "o3" -> 3 [] x = "o4" -> 4
                   [] x = "s1" -> 5 [] x = "s2" -> 6 [] x = "s3" -> 7 [] x = "s4" -> 8
